@@ -224,18 +224,48 @@ def _gen_grid(rng, tier, fps=None):
                                     'frames': [mask(r_) for r_ in m]}}
 
 
+def _exhaustive_p2s(T, with_on, with_off, fps=16.0):
+    """every single-pitch column of T frames (x every onset / offset column)"""
+    out = []
+    for f in range(2 ** T):
+        for o in (range(2 ** T) if with_on else [None]):
+            for x in (range(2 ** T) if with_off else [None]):
+                rows = lambda z: None if z is None else [(z >> i) & 1 for i in range(T)]
+                out.append({'op': 'p2s', 'input': {'fps': H(fps), 'min_dur_ms': H(0), 'mmp': 21, 'T': T, 'P': 1,
+                                                   'frames': rows(f), 'onsets': rows(o), 'offsets': rows(x)}})
+    return out
+
+
+def _exhaustive_grid(T, fps):
+    return [{'op': 'grid', 'input': {'fps': H(fps), 'mn': 21, 'T': T, 'P': 1,
+                                     'frames': [(f >> i) & 1 for i in range(T)]}} for f in range(2 ** T)]
+
+
 def cases(rng, tier, n=None):
     thorough = tier == 'thorough'
-    k = 1 if not thorough else 12
+    k = 1 if not thorough else 10
     if n is not None:
         ns = [n // 4] * 4
     else:
-        ns = [400 * k, 400 * k, 100 * k, 300 * k]
+        ns = [400 * k, 350 * k, 100 * k, 300 * k]
     out = []
     out += [_gen_s2p(rng, tier) for _ in range(ns[0])]
     out += [_gen_p2s(rng, tier) for _ in range(ns[1])]
     out += [_gen_o2s(rng, tier) for _ in range(ns[2])]
     out += [_gen_grid(rng, tier) for _ in range(ns[3])]
+    if n is None:
+        # exhaustive small scopes of the decoder (every column, every prediction column)
+        if thorough:
+            for T in (1, 2, 3, 4):
+                out += _exhaustive_p2s(T, True, True)
+            out += _exhaustive_p2s(6, True, False)
+            for T in range(1, 11):
+                out += _exhaustive_p2s(T, False, False)
+            for fps in FPS:
+                out += _exhaustive_grid(8, fps)
+        else:
+            out += _exhaustive_p2s(1, True, True) + _exhaustive_p2s(2, True, True)
+            out += _exhaustive_p2s(3, True, False) + _exhaustive_p2s(4, False, False)
     return out
 
 
@@ -331,14 +361,16 @@ def impl(case):
         except (ValueError, IndexError) as e:
             return _exc(e)
         P = a['cfg']['max_pitch'] - a['cfg']['min_pitch'] + 1
-        shapes = set(x.shape for x in (r.active, r.weights, r.onsets, r.onset_velocities, r.active_velocities, r.offsets))
-        assert shapes == {(r.active.shape[0], P)}, shapes
-        assert r.control_changes.shape == (r.active.shape[0], 128)
-        assert set(np.unique(r.active)) <= {0.0, 1.0} and set(np.unique(r.onsets)) <= {0.0, 1.0}
-        assert set(np.unique(r.offsets)) <= {0.0, 1.0}
+        shapes = sorted(set(tuple(x.shape) for x in (r.active, r.weights, r.onsets, r.onset_velocities,
+                                                      r.active_velocities, r.offsets)))
+        # every roll has the same shape (rows x pitches), control_changes has the same number of rows
+        shape_ok = (shapes == [(r.active.shape[0], P)] and tuple(r.control_changes.shape) == (r.active.shape[0], 128)
+                    and set(np.unique(r.active)) <= {0.0, 1.0} and set(np.unique(r.onsets)) <= {0.0, 1.0}
+                    and set(np.unique(r.offsets)) <= {0.0, 1.0}
+                    and bool(np.array_equal(r.onset_velocities, r.active_velocities * r.onsets)))
         cc = sorted([int(i), int(j), int(r.control_changes[i, j])] for i, j in zip(*np.nonzero(r.control_changes)))
         return ['OK', int(r.active.shape[0]), [mask(x) for x in r.active], [mask(x) for x in r.onsets],
-                [mask(x) for x in r.offsets], _bits_rows(r.active_velocities), _bits_rows(r.weights), cc]
+                [mask(x) for x in r.offsets], _bits_rows(r.active_velocities), _bits_rows(r.weights), cc, shape_ok]
     if op == 'p2s':
         T, P = a['T'], a['P']
         kw = {}
@@ -428,7 +460,7 @@ def model_output(case, m):
         up = F(c['upweight'])
         velrows = [[f32bits(v / c['max_vel']) for v in _digits(z, P)] for z in vel]
         wrows = [[f32bits(1.0 if k == 0 else up / k) for k in _digits(z, P)] for z in wts]
-        return ['OK', rows, act, ons, offs, velrows, wrows, sorted(cc)]
+        return ['OK', rows, act, ons, offs, velrows, wrows, sorted(cc), True]
     if op in ('p2s', 'o2s'):
         return ['OK', m[0], m[1]]
     if op == 'grid':
@@ -560,6 +592,8 @@ def _oracle_s2p(a, io):
     mn, mx = c['min_pitch'], c['max_pitch']
     P = mx - mn + 1
     rows = io[1]
+    if not io[8]:
+        return {'kind': 'roll-shapes-inconsistent', 'fps': fps}
     if rows != int(total * fps + 1):
         return {'kind': 'roll-length', 'fps': fps, 'rows': rows, 'expected': int(total * fps + 1)}
     notes = [(p, v, F(s), F(e)) for p, v, s, e in a['notes'] if mn <= p <= mx]
@@ -652,6 +686,17 @@ def shrink(case):
 
 
 META = {
-    'level_text': 'see notes/C18.md',
-    'level_note': 'see notes/C18.md',
+    'level_text': ('Theorems for ALL inputs about a bit-exact Gallina model (PrimFloat) of the three conversion functions: '
+                   'frames_from_times basics (at least one frame; floor / ceil; bounds under any occupancy; monotone in the time; '
+                   'Flocq); the run-length decoder characterised for every rectangular matrix and every onset / offset prediction '
+                   '(each declarative note span emitted exactly once, nothing else; maximal runs without predictions; only notes '
+                   'failing the float minimum-duration test are dropped; onset decoder one note per cell) by induction over the '
+                   'frames; roll -> notes -> roll is the identity under the explicit boolean premise that frame index arithmetic '
+                   'is exact at every run boundary, and that premise is proved for every power-of-two frame rate (8, 16, 32). '
+                   'The unconditional round trip is refuted for 100 fps (known finding F14: 31.25, 50, 62.5, 100 fps).'),
+    'level_note': ('Trusted: Coq kernel + vm_compute, Flocq 4.1, stdlib Reals / FloatAxioms; the hand-written model '
+                   'Model/FramesRoll.v tied to note_seq by a differential run (~1300 quick / ~24000 thorough cases, floats '
+                   'bit-exact, decoded times via a fingerprint of their bit patterns); numpy slice-assignment semantics and the '
+                   'float32 cast of velocity / weight cells are modelled by hand / recomputed in the harness. velocity_values, '
+                   'non-0/1 cells and the converse composition notes -> roll -> notes have no theorem.'),
 }
